@@ -24,7 +24,7 @@ SPEC = dict(
     required=["sibling_sets", "loads_compared", "show_compared", "dry_update_compared", "bool_spelling:yes",
               "bool_spelling:on", "bool_spelling:1", "bool_spelling:TRUE", "bool_spelling:no", "glob_entries",
               "legacy_section_loads", "explicit_self_entries_with_extra_pattern", "ini_layout:inline", "ini_layout:mixed",
-              "configs_without_file_patterns_section"],
+              "configs_without_file_patterns_section", "ini_mixed_quoting"],
     anchors=[("config", "_parse_cfg"), ("config", "_parse_toml"), ("config", "_parse_config"),
              ("config", "_parse_cfg_file_patterns"), ("config", "_iter_glob_expanded_file_patterns"),
              ("config", "_parse_raw_config")],
@@ -34,7 +34,8 @@ TRUE_SPELLINGS = ["yes", "true", "1", "on", "True", "TRUE", "Yes", "ON"]
 FALSE_SPELLINGS = ["no", "false", "0", "off", "False", "NO"]
 SYNTAXES = [("pyproject.toml", "toml", "tool.bumpver"), ("bumpver.toml", "toml", "bumpver"),
             (".bumpver.toml", "toml", "bumpver"), ("setup.cfg", "cfg-quoted", "bumpver"),
-            ("setup.cfg", "cfg-unquoted", "bumpver"), ("setup.cfg", "cfg-legacy", "pycalver"),
+            ("setup.cfg", "cfg-unquoted", "bumpver"), ("setup.cfg", "cfg-mixed", "bumpver"),
+            ("setup.cfg", "cfg-legacy", "pycalver"),
             ("pycalver.toml", "toml", "pycalver")]
 MSGS = ["bump version {old_version} -> {new_version}", "release {new_version}", "100% done: {new_version}",
         "pct %% and %(name)s in {new_version}", "bump: {old_version} to {new_version} (pep {new_version_pep440})",
@@ -140,7 +141,17 @@ def serialise(a, syntax, R):
     else:
         quoted = kind != "cfg-unquoted"
         qq = (lambda s: '"' + s + '"') if quoted else (lambda s: s)
-        lines += [f"[{sect}]", f"current_version = {qq(a['cur'])}", f"version_pattern = {qq(a['vp'])}"]
+        if kind == "cfg-mixed":
+            # every value decides for itself whether it is written with quotes; current_version and version_pattern
+            # always differ (the interesting combination for the config file's own line)
+            quoted = R.random() < 0.5
+            qq = lambda s: ('"' + s + '"') if R.random() < 0.5 else s  # noqa: E731
+            qcur = (lambda s: '"' + s + '"') if quoted else (lambda s: s)
+            qvp = (lambda s: s) if quoted else (lambda s: '"' + s + '"')
+            lines += [f"[{sect}]", f"current_version = {qcur(a['cur'])}", f"version_pattern = {qvp(a['vp'])}"]
+            spelled["mixed_quoting"] = 1
+        else:
+            lines += [f"[{sect}]", f"current_version = {qq(a['cur'])}", f"version_pattern = {qq(a['vp'])}"]
         for k in ("commit_message", "tag_message", "tag_scope", "pre_commit_hook", "post_commit_hook"):
             if k in a:
                 v = a[k]
@@ -245,6 +256,8 @@ def run_case(ctx, case):
         for k, sp in r["spelled"].items():
             if k.startswith("layout:"):
                 ctx.count("ini_" + k)
+            elif k == "mixed_quoting":
+                ctx.count("ini_mixed_quoting")
             else:
                 ctx.count("bool_spelling:" + sp)
     if any("*" in key for key, _f, _p in a["entries"]):
